@@ -82,7 +82,91 @@ func (c *Ctx) Doc(rule, doc string, floor int) {
 	c.Floors[rule] = floor
 }
 
+// InWitness reports whether pos lies in the overlaid example package.
+func (c *Ctx) InWitness(pos token.Pos) bool {
+	if !pos.IsValid() || c.Fset == nil || c.WitnessDir == "" {
+		return false
+	}
+	return strings.HasPrefix(c.Fset.Position(pos).Filename, c.WitnessDir+string(filepath.Separator))
+}
+
+// constructNames reports whether construct mentions the function name as a
+// whole identifier.
+func constructNames(construct, name string) bool {
+	for i := 0; ; {
+		j := strings.Index(construct[i:], name)
+		if j < 0 {
+			return false
+		}
+		end := i + j + len(name)
+		if end == len(construct) || !(construct[end] == '_' || construct[end] >= '0' && construct[end] <= '9' || construct[end] >= 'a' && construct[end] <= 'z' || construct[end] >= 'A' && construct[end] <= 'Z') {
+			return true
+		}
+		i = end
+	}
+}
+
+// EvalWitnesses turns what the rules said about the example package into
+// obligations: every positive example of a rule that ran must have been
+// reported, every negative example must have been left alone.
+func (c *Ctx) EvalWitnesses() {
+	ran := func(rule string) bool { _, ok := c.RuleDocs[rule]; return ok }
+	for _, w := range c.Witnesses {
+		hit := func(rule string, sts ...Status) bool {
+			for _, h := range c.witnessHits {
+				if h.Rule != rule {
+					continue
+				}
+				if h.Pos.IsValid() {
+					if h.Pos < w.Start || h.Pos > w.End {
+						continue
+					}
+				} else if !constructNames(h.Construct, WitnessDirName+"."+w.Func) {
+					continue
+				}
+				for _, st := range sts {
+					if h.Status == st {
+						return true
+					}
+				}
+			}
+			return false
+		}
+		for _, r := range w.Positive {
+			if !ran(r) {
+				continue
+			}
+			key := "example:" + w.Func
+			if hit(r, Violation) {
+				c.addRaw(r, key, OK, token.NoPos, "positive example reported (the rule still detects what it was written for)").Trivial = true
+			} else {
+				c.Undecided(r, key, token.NoPos, "the rule no longer reports its positive example "+w.Func+" (checker/internal/core/witness/witness.go.txt): it would pass on a tree that violates it")
+			}
+		}
+		for _, r := range w.Negative {
+			if !ran(r) {
+				continue
+			}
+			key := "example:" + w.Func
+			if hit(r, Violation, Undecided) {
+				c.Undecided(r, key, token.NoPos, "the rule fires on its negative example "+w.Func+" (checker/internal/core/witness/witness.go.txt): it would raise a false alarm on a tree that is right")
+			} else {
+				c.addRaw(r, key, OK, token.NoPos, "negative example left alone").Trivial = true
+			}
+		}
+	}
+}
+
 func (c *Ctx) add(rule, construct string, st Status, pos token.Pos, detail string) *Obligation {
+	if c.InWitness(pos) || strings.Contains(construct, WitnessDirName+".") {
+		// verdicts on the example package never count as obligations of the repository
+		c.witnessHits = append(c.witnessHits, witnessHit{rule, st, pos, construct})
+		return &Obligation{}
+	}
+	return c.addRaw(rule, construct, st, pos, detail)
+}
+
+func (c *Ctx) addRaw(rule, construct string, st Status, pos token.Pos, detail string) *Obligation {
 	o := &Obligation{Rule: rule, Construct: construct, Status: st, Pos: c.Pos(pos), Detail: detail}
 	c.Obls = append(c.Obls, o)
 	return o
